@@ -77,6 +77,11 @@ func c19Doc(frames []string, where string) string {
 		fr = "<table><tr><td>" + pc() + fr + "</td></tr></table>"
 	case "picture":
 		fr = "<picture><source srcset=\"http://neutral.example/i.webp 1x\"><img src=\"http://neutral.example/i.jpg\" width=\"400\" height=\"300\">" + fr + "</picture>"
+	case "video":
+		// fallback content of a retained video: the frame after other fallback nodes
+		fr = "<video src=\"http://neutral.example/v.mp4\" width=\"400\" height=\"300\">\n  <source src=\"http://neutral.example/v.webm\">\n  " + t.W(3) + "\n  " + fr + "\n</video>"
+	case "video-p":
+		fr = "<video src=\"http://neutral.example/v.mp4\" width=\"400\" height=\"300\"><p>" + t.W(3) + "</p>" + fr + "</video>"
 	case "tweet":
 		// inside a genuine tweet quotation, which is kept whole inside its placeholder
 		fr = "<blockquote class=\"twitter-tweet\"><p>" + t.W(6) + "</p>" + fr + "<a href=\"https://twitter.com/someone/status/5550001\">" + t.W(2) + "</a></blockquote>"
@@ -141,7 +146,7 @@ func c19Enumerate(tier string, emit func(*eng.Case)) {
 		if f.path > 3 {
 			continue
 		}
-		for _, where := range []string{"table", "caption", "layout", "picture", "figure-picture", "tweet"} {
+		for _, where := range []string{"table", "caption", "layout", "picture", "figure-picture", "tweet", "video", "video-p"} {
 			emit(&eng.Case{Kind: "frame-" + where, URL: c19Page, HTML: c19Doc([]string{c19Frame(c19Tags[f.tag], src(f))}, where), P: map[string]string{"doc": where + ": " + desc(f)}})
 		}
 	}
@@ -379,7 +384,7 @@ func init() {
 		ID:        "C19",
 		DesignRef: "§5 C19",
 		Rule: "source URLs = 4 schemes (http, https, scheme-relative, none) x 5 services (4 allow-listed + vimeo.com) x 18 host forms (exact, www, deep subdomain, suffix/prefix look-alikes, userinfo tricks, name in path/query/fragment, port, upper case, trailing dot) x 15 path/query shapes (ids with an escaped quote or angle brackets) x 5 tag kinds (iframe, object data, object param, twitter blockquote, rendered-tweet iframe): full product in the article body; " +
-			"the frames with the 1 (quick) / 4 (thorough) leading path shapes also inside a data-table cell, a figure caption, a layout table, a <picture> that has an <img>, a figure>picture>span, and the quotation of a genuine tweet; every scheme-relative (thorough: also absolute) source once more without any page URL; frames with an empty, fragment-only or missing source on pages that live on an allow-listed host; thorough adds pairs of frames." + crossRule + " Oracle: every embed placeholder maps to a source frame whose reference-parsed host is an allow-listed host of its data-type or a subdomain, with data-id = last non-empty path segment (resp. data-tweet-id); no iframe/object other than the one a placeholder stands for outside table or caption (nested ones inside a tweet quotation included). " +
+			"the frames with the 1 (quick) / 4 (thorough) leading path shapes also inside a data-table cell, a figure caption, a layout table, a <picture> that has an <img>, a figure>picture>span, the quotation of a genuine tweet, and the fallback content of a retained video; every scheme-relative (thorough: also absolute) source once more without any page URL; frames with an empty, fragment-only or missing source on pages that live on an allow-listed host; thorough adds pairs of frames." + crossRule + " Oracle: every embed placeholder maps to a source frame whose reference-parsed host is an allow-listed host of its data-type or a subdomain, with data-id = last non-empty path segment (resp. data-tweet-id); no iframe/object other than the one a placeholder stands for outside table or caption (nested ones inside a tweet quotation included). " +
 			"Non-trivial = a look-alike source is present or a placeholder was produced.",
 		Enumerate: c19Enumerate,
 		Check:     c19Check,
